@@ -295,7 +295,10 @@ type Conn struct {
 	CloseCode atomic.Int64
 	// OpenErr, when set, makes OpenStream fail.
 	OpenErr atomic.Value
-	streams atomic.Int64
+	// OnOpenStream runs inside OpenStream after the stream was made and before it is returned (e.g.
+	// to close the connection at exactly that point).
+	OnOpenStream func()
+	streams      atomic.Int64
 }
 
 var _ transport.CapableConn = (*Conn)(nil)
@@ -315,6 +318,9 @@ func (c *Conn) CloseWithError(code network.ConnErrorCode) error {
 // swarm's accept loop then closes its side.
 func (c *Conn) RemoteClose() { c.once.Do(func() { close(c.closed) }) }
 
+// Streams is the number of streams the fake muxer opened (outbound).
+func (c *Conn) Streams() int64 { return c.streams.Load() }
+
 func (c *Conn) IsClosed() bool {
 	select {
 	case <-c.closed:
@@ -333,6 +339,9 @@ func (c *Conn) OpenStream(ctx context.Context) (network.MuxedStream, error) {
 	}
 	a, _ := memnet.Pipe(c.laddr, c.raddr, 1<<16)
 	c.streams.Add(1)
+	if c.OnOpenStream != nil {
+		c.OnOpenStream()
+	}
 	return &Stream{Conn: a, c: c}, nil
 }
 
